@@ -1,4 +1,5 @@
 import GodiModel.Build
+import GodiModel.Hyp
 import Driver.Util
 /-! Line protocol for M5 (`p …` lines). One output line per input line. -/
 namespace Driver.ContD
@@ -139,6 +140,9 @@ def step (d : DSt) (ws : List String) : DSt × String :=
       match r with
       | .ok _ => ({ d with st := st, built := true }, "ok" ++ evs)
       | .error e => ({ d with st := st, built := false }, showErr e ++ evs)
+  | ["hyp"] =>
+    -- the structural hypotheses of the container theorems, evaluated on godi's own descriptors
+    (d, match failedHyps d.descs with | [] => "ok" | l => "violated " ++ " ".intercalate l)
   | ["verdict"] =>
     (d, match verdict d.descs with | .circular => "circular" | .lifetime => "lifetime" | .missing => "missing" | .ok => "ok")
   | ["ctx", x, p] =>
